@@ -441,6 +441,9 @@ func (e *Exec) invoke(st *State, f *Frame, fv FuncV, args []Value, retTo ssa.Val
 			name = fv.fn.Origin().String()
 		}
 	}
+	if len(e.ob.Critical) > 0 && st.tolerant == 0 {
+		e.checkCritical(st, name)
+	}
 	if h, ok := e.lookupIntrinsic(name, fv); ok {
 		r := h(e, st, fv, args, cc)
 		if _, pushed := r.(pushedFrame); pushed {
